@@ -1965,7 +1965,7 @@ theorem isAuthoritativeV2_unfold (v : View) (q : Bytes) :
       | none => .panic
       | some rev =>
         match findGo v rev preA onRowsA postA (rev.length + 2) rev.length (false, false, 0, false) with
-        | .ok (ns, auth, zl, _) => .ok ⟨ns, auth, q.drop (q.length - zl)⟩
+        | .ok (ns, auth, zl, _) => .ok ⟨ns, auth, q.drop (q.length - (if ns then zl else 1))⟩
         | .err => .err
         | .panic => .panic := rfl
 
@@ -2010,14 +2010,22 @@ def cutAt (rows : Rows) (L : Bytes) (z : List Bytes) (ns auth : Bool) : Bool × 
   if L = [0, 0] then (ns || hasNS (rows z [0, 0]), auth || hasSOA (rows z [0, 0]))
   else (ns || hasNS (rows z L) || hasNS (rows z [0, 0]), auth || hasSOA (rows z L) || hasSOA (rows z [0, 0]))
 
-theorem st3Of_A {rows : Rows} (hok : ∀ z loc, RowsOK (rows z loc)) (L : Bytes) (c : List Bytes)
+/-- the rows of well-formed owners that a client at `L` can see (its own and the untagged ones) never
+make `ExtractRRFromRow` panic -/
+def RowsOKAt (rows : Rows) (L : Bytes) : Prop :=
+  ∀ z, NameOK z → ∀ loc, loc = L ∨ loc = [0, 0] → RowsOK (rows z loc)
+
+theorem RowsOKAt.of_all {rows : Rows} (h : ∀ z loc, RowsOK (rows z loc)) (L : Bytes) : RowsOKAt rows L :=
+  fun z _ loc _ => h z loc
+
+theorem st3Of_A {rows : Rows} (L : Bytes) (hok : RowsOKAt rows L) (c : List Bytes) (hc : NameOK c)
     (ns auth : Bool) (zl : Nat) (pan : Bool) :
     st3Of rows onRowsA L c (ns, auth, zl, pan) =
       ((cutAt rows L c.reverse ns auth).1, (cutAt rows L c.reverse ns auth).2, zl, pan) := by
   unfold st3Of cutAt
   by_cases hL : L = [0, 0]
-  · rw [if_pos hL, if_pos hL, onRowsA_ok (hok _ _)]
-  · rw [if_neg hL, if_neg hL, onRowsA_ok (hok _ _), onRowsA_ok (hok _ _)]
+  · rw [if_pos hL, if_pos hL, onRowsA_ok (hok _ hc.reverse _ (Or.inr rfl))]
+  · rw [if_neg hL, if_neg hL, onRowsA_ok (hok _ hc.reverse _ (Or.inl rfl)), onRowsA_ok (hok _ hc.reverse _ (Or.inr rfl))]
 
 theorem cutAt_empty {rows : Rows} {L : Bytes} {z : List Bytes} (h1 : rows z L = []) (h0 : rows z [0, 0] = [])
     (ns auth : Bool) : cutAt rows L z ns auth = (ns, auth) := by
@@ -2026,8 +2034,8 @@ theorem cutAt_empty {rows : Rows} {L : Bytes} {z : List Bytes} (h1 : rows z L = 
 section V1A
 variable {s₁ : Store} {rows : Rows}
 
-theorem isAuthV1_step (hrep : RepRRV1 s₁ rows) (hok : ∀ z loc, RowsOK (rows z loc)) (b : Backend)
-    {L : Bytes} (hL : L.length = 2) (z : List Bytes) (hz : NameOK z) (fuel : Nat) (ns auth : Bool) :
+theorem isAuthV1_step (hrep : RepRRV1 s₁ rows) {L : Bytes} (hok : RowsOKAt rows L) (b : Backend)
+    (hL : L.length = 2) (z : List Bytes) (hz : NameOK z) (fuel : Nat) (ns auth : Bool) :
     isAuthoritativeV1 ⟨b, s₁, L⟩ (fuel + 1) (pack z) ns auth =
       if (cutAt rows L z ns auth).1 = true then
         .ok ⟨(cutAt rows L z ns auth).1, (cutAt rows L z ns auth).2, pack z⟩
@@ -2047,7 +2055,7 @@ theorem isAuthV1_step (hrep : RepRRV1 s₁ rows) (hok : ∀ z loc, RowsOK (rows 
     intro ns1 auth1
     by_cases h : auth1 = true ∧ ns1 = true
     · rw [if_neg (by simpa using h)]; obtain ⟨h1, h2⟩ := h; subst h1; subst h2; simp
-    · rw [if_pos h, g0, scanCut_ok _ _ _ (hok _ _)]
+    · rw [if_pos h, g0, scanCut_ok _ _ _ (hok _ hz _ (Or.inr rfl))]
   have hcut : ∃ ns1 auth1, scanCut (if L ≠ [0, 0] then s₁.get (L ++ pack z) else []) ns auth = some (ns1, auth1) ∧
       cutAt rows L z ns auth = (ns1 || hasNS (rows z [0, 0]), auth1 || hasSOA (rows z [0, 0])) := by
     unfold cutAt
@@ -2055,7 +2063,7 @@ theorem isAuthV1_step (hrep : RepRRV1 s₁ rows) (hok : ∀ z loc, RowsOK (rows 
     · refine ⟨ns, auth, ?_, by rw [if_pos hL0]⟩
       rw [if_neg (by simpa using hL0)]; rfl
     · refine ⟨ns || hasNS (rows z L), auth || hasSOA (rows z L), ?_, by rw [if_neg hL0]⟩
-      rw [if_pos hL0, gL, scanCut_ok _ _ _ (hok _ _)]
+      rw [if_pos hL0, gL, scanCut_ok _ _ _ (hok _ hz _ (Or.inl rfl))]
   obtain ⟨ns1, auth1, hs1, hc⟩ := hcut
   rw [hs1]
   simp only []
@@ -2073,8 +2081,8 @@ theorem isAuthV1_step (hrep : RepRRV1 s₁ rows) (hok : ∀ z loc, RowsOK (rows 
       simp only []
       rw [if_neg (ofNat_len_ne_zero hx), drop_tok_pack x hx]
 
-theorem isAuthV1_step_nil (hrep : RepRRV1 s₁ rows) (hok : ∀ z loc, RowsOK (rows z loc)) (b : Backend)
-    {L : Bytes} (hL : L.length = 2) (fuel : Nat) (ns auth : Bool) :
+theorem isAuthV1_step_nil (hrep : RepRRV1 s₁ rows) {L : Bytes} (hok : RowsOKAt rows L) (b : Backend)
+    (hL : L.length = 2) (fuel : Nat) (ns auth : Bool) :
     isAuthoritativeV1 ⟨b, s₁, L⟩ (fuel + 1) (pack []) ns auth =
       .ok ⟨(cutAt rows L [] ns auth).1, (cutAt rows L [] ns auth).2, [0]⟩ := by
   rw [isAuthV1_step hrep hok b hL [] NameOK.nil]
@@ -2082,8 +2090,8 @@ theorem isAuthV1_step_nil (hrep : RepRRV1 s₁ rows) (hok : ∀ z loc, RowsOK (r
   · rw [if_pos h]; rfl
   · rw [if_neg h]; rfl
 
-theorem isAuthV1_step_cons (hrep : RepRRV1 s₁ rows) (hok : ∀ z loc, RowsOK (rows z loc)) (b : Backend)
-    {L : Bytes} (hL : L.length = 2) (x : Bytes) (z : List Bytes) (hz : NameOK (x :: z)) (fuel : Nat)
+theorem isAuthV1_step_cons (hrep : RepRRV1 s₁ rows) {L : Bytes} (hok : RowsOKAt rows L) (b : Backend)
+    (hL : L.length = 2) (x : Bytes) (z : List Bytes) (hz : NameOK (x :: z)) (fuel : Nat)
     (ns auth : Bool) :
     isAuthoritativeV1 ⟨b, s₁, L⟩ (fuel + 1) (pack (x :: z)) ns auth =
       if (cutAt rows L (x :: z) ns auth).1 = true then
@@ -2100,8 +2108,8 @@ variable {s₁ : Store} {rows : Rows}
 /-- the name `z` (query order) owns no rows for any 2-byte location -/
 def NoRowsF (rows : Rows) (z : List Bytes) : Prop := ∀ loc : Bytes, loc.length = 2 → rows z loc = []
 
-theorem isAuthV1_all_empty (hrep : RepRRV1 s₁ rows) (hok : ∀ z loc, RowsOK (rows z loc)) (b : Backend)
-    {L : Bytes} (hL : L.length = 2) : ∀ (z : List Bytes) (fuel : Nat) (auth : Bool), NameOK z →
+theorem isAuthV1_all_empty (hrep : RepRRV1 s₁ rows) {L : Bytes} (hok : RowsOKAt rows L) (b : Backend)
+    (hL : L.length = 2) : ∀ (z : List Bytes) (fuel : Nat) (auth : Bool), NameOK z →
     z.length < fuel → (∀ t1 t2, z = t1 ++ t2 → NoRowsF rows t2) →
     isAuthoritativeV1 ⟨b, s₁, L⟩ fuel (pack z) false auth = .ok ⟨false, auth, [0]⟩
   | [], fuel, auth, hz, hf, h => by
@@ -2115,8 +2123,8 @@ theorem isAuthV1_all_empty (hrep : RepRRV1 s₁ rows) (hok : ∀ z loc, RowsOK (
     exact isAuthV1_all_empty hrep hok b hL z f auth hz.tail (by simp at hf; omega)
       fun t1 t2 ht => h (x :: t1) t2 (by rw [ht]; rfl)
 
-theorem isAuthV1_skip (hrep : RepRRV1 s₁ rows) (hok : ∀ z loc, RowsOK (rows z loc)) (b : Backend)
-    {L : Bytes} (hL : L.length = 2) : ∀ (t z : List Bytes) (fuel : Nat) (auth : Bool), NameOK (t ++ z) →
+theorem isAuthV1_skip (hrep : RepRRV1 s₁ rows) {L : Bytes} (hok : RowsOKAt rows L) (b : Backend)
+    (hL : L.length = 2) : ∀ (t z : List Bytes) (fuel : Nat) (auth : Bool), NameOK (t ++ z) →
     (∀ t1 t2, t = t1 ++ t2 → t2 ≠ [] → NoRowsF rows (t2 ++ z)) →
     isAuthoritativeV1 ⟨b, s₁, L⟩ (fuel + t.length) (pack (t ++ z)) false auth =
       isAuthoritativeV1 ⟨b, s₁, L⟩ fuel (pack z) false auth
@@ -2134,8 +2142,8 @@ end V1Walk
 section AuthMain
 variable {s₁ s₂ : Store} {rows : Rows}
 
-theorem isAuth_walk (hrep1 : RepRRV1 s₁ rows) (hrep2 : RepRRV2 s₂ rows) (hok : ∀ z loc, RowsOK (rows z loc))
-    (b1 b2 : Backend) {L : Bytes} (hL : L.length = 2) {n : List Bytes} (hn : NameOK64 n)
+theorem isAuth_walk (hrep1 : RepRRV1 s₁ rows) (hrep2 : RepRRV2 s₂ rows) {L : Bytes} (hok : RowsOKAt rows L)
+    (b1 b2 : Backend) (hL : L.length = 2) {n : List Bytes} (hn : NameOK64 n)
     (hlen : (pack n).length ≤ 256) :
     ∀ (fuel2 : Nat) (c : List Bytes) (auth : Bool) (zl : Nat) (pan : Bool) (fuel1 : Nat),
       c <+: n → c.length < fuel2 → c.length < fuel1 →
@@ -2153,7 +2161,7 @@ theorem isAuth_walk (hrep1 : RepRRV1 s₁ rows) (hrep2 : RepRRV2 s₂ rows) (hok
     obtain ⟨g, rfl⟩ : ∃ g, fuel1 = g + 1 := ⟨fuel1 - 1, by omega⟩
     have hco : NameOK c := hn.ok.prefix hc
     have hcr : NameOK c.reverse := hco.reverse
-    have hst3 := st3Of_A hok L c false auth (pack c).length pan
+    have hst3 := st3Of_A L hok c (hn.ok.prefix hc) false auth (pack c).length pan
     have hstep := findGo_step (rows := rows) ⟨b2, s₂, L⟩ hrep2 hL preA onRowsA postA onRowsA_nil f
       (false, auth, zl, pan) (false, auth, (pack c).length, pan) hn hlen hc rfl
     simp only [hst3, postA] at hstep
@@ -2235,13 +2243,6 @@ theorem isAuth_walk (hrep1 : RepRRV1 s₁ rows) (hrep2 : RepRRV2 s₂ rows) (hok
 end AuthMain
 
 
-/-- agreement of the two `IsAuthoritative` results for the query `ql` (labels in query order) -/
-def CutAgree (rows : Rows) (ql : List Bytes) (r2 r1 : R Cut) : Prop :=
-  ∃ c2 c1 : Cut, r2 = .ok c2 ∧ r1 = .ok c1 ∧ c2.ns = c1.ns ∧ c2.auth = c1.auth ∧
-    (c1.ns = true → c2.zoneCut = c1.zoneCut) ∧
-    (c1.ns = false → c1.zoneCut = [0] ∧ ∃ z0, z0 <:+ ql ∧ c2.zoneCut = pack z0 ∧
-      ∀ z, z <:+ z0 → z ≠ z0 → NoRowsF rows z)
-
 theorem drop_pack_suffix {ql c0 : List Bytes} (h : c0 <+: ql.reverse) :
     (pack ql).drop ((pack ql).length - (pack c0).length) = pack c0.reverse := by
   obtain ⟨t, ht⟩ := h
@@ -2252,13 +2253,20 @@ theorem drop_pack_suffix {ql c0 : List Bytes} (h : c0 <+: ql.reverse) :
     rw [List.length_append, pack_reverse_length]; omega
   rw [this]; simp
 
-theorem isAuthoritativeV2_agrees_V1' {s₁ s₂ : Store} {rows : Rows} (hrep1 : RepRRV1 s₁ rows)
-    (hrep2 : RepRRV2 s₂ rows) (hok : ∀ z loc, RowsOK (rows z loc)) {L : Bytes} (hL : L.length = 2)
+theorem drop_pack_root (ql : List Bytes) : (pack ql).drop ((pack ql).length - 1) = [0] :=
+  drop_pack_suffix (ql := ql) (c0 := []) List.nil_prefix
+
+/-- **`IsAuthoritative`, v2 = v1** (after the repair of `sortedDataReader.IsAuthoritative`: with no NS
+on the path the zone cut is the root in both). Both return `.ok` with the same `Cut`, whose zone cut
+is the packed form of a suffix `z1` of the query; when no NS was found it is the root. -/
+theorem isAuthoritativeV2_eq_V1_cut {s₁ s₂ : Store} {rows : Rows} (hrep1 : RepRRV1 s₁ rows)
+    (hrep2 : RepRRV2 s₂ rows) {L : Bytes} (hok : RowsOKAt rows L) (hL : L.length = 2)
     (ql : List Bytes) (hq : NameOK64 ql) (hlen : (pack ql).length ≤ 256) :
-    CutAgree rows ql (isAuthoritativeV2 ⟨.rdbV2, s₂, L⟩ (pack ql))
-      (isAuthoritativeV1 ⟨.rdbV1, s₁, L⟩ ((pack ql).length + 1) (pack ql) false false) := by
+    ∃ (N A : Bool) (z1 : List Bytes), z1 <:+ ql ∧ (N = false → z1 = []) ∧
+      isAuthoritativeV2 ⟨.rdbV2, s₂, L⟩ (pack ql) = .ok ⟨N, A, pack z1⟩ ∧
+      isAuthoritativeV1 ⟨.rdbV1, s₁, L⟩ ((pack ql).length + 1) (pack ql) false false = .ok ⟨N, A, pack z1⟩ := by
   have hn : NameOK64 ql.reverse := fun l hl => hq l (List.mem_reverse.1 hl)
-  obtain ⟨N, A, c0, pan', hc0, hgo, hv1, hno⟩ :=
+  obtain ⟨N, A, c0, pan', hc0, hgo, hv1, _⟩ :=
     isAuth_walk hrep1 hrep2 hok .rdbV1 .rdbV2 hL hn (by rw [pack_reverse_length]; exact hlen)
       ((pack ql.reverse).length + 2) ql.reverse false 0 false ((pack ql).length + 1) (List.prefix_refl _)
       (by have := length_le_flat_length ql.reverse; rw [pack_length]; omega)
@@ -2268,25 +2276,520 @@ theorem isAuthoritativeV2_agrees_V1' {s₁ s₂ : Store} {rows : Rows} (hrep1 : 
   simp only []
   rw [hgo]
   simp only []
-  rw [drop_pack_suffix hc0]
-  refine ⟨_, _, rfl, hv1, rfl, rfl, fun h => ?_, fun h => ?_⟩
-  · simp only at h; rw [if_pos h]
-  · simp only at h
-    refine ⟨by rw [if_neg (by simp [h])], c0.reverse, ?_, rfl, fun z hz hne => ?_⟩
-    · have := List.reverse_suffix.2 hc0
-      rwa [List.reverse_reverse] at this
-    · have h1 : z.reverse <+: c0 := by
-        have := List.reverse_prefix.2 hz; rwa [List.reverse_reverse] at this
-      have h2 : z.reverse ≠ c0 := fun e => hne (by rw [← e, List.reverse_reverse])
-      intro loc hl
-      have := hno h z.reverse h1 h2 loc hl
-      rwa [List.reverse_reverse] at this
+  have hsuf : c0.reverse <:+ ql := by
+    have := List.reverse_suffix.2 hc0
+    rwa [List.reverse_reverse] at this
+  cases N with
+  | true =>
+    refine ⟨true, A, c0.reverse, hsuf, fun h => (by cases h), ?_, ?_⟩
+    · rw [if_pos rfl, drop_pack_suffix hc0]
+    · rw [hv1, if_pos rfl]
+  | false =>
+    refine ⟨false, A, [], List.nil_suffix, fun _ => rfl, ?_, ?_⟩
+    · rw [if_neg (by simp), drop_pack_root]; rfl
+    · rw [hv1, if_neg (by simp)]; rfl
 
-theorem CutAgree.eq_of_ns {rows : Rows} {ql : List Bytes} {r2 r1 : R Cut} (h : CutAgree rows ql r2 r1)
-    (hns : ∀ c, r1 = .ok c → c.ns = true) : r2 = r1 := by
-  obtain ⟨c2, c1, rfl, rfl, h1, h2, h3, _⟩ := h
-  have := h3 (hns c1 rfl)
-  cases c2; cases c1; simp_all
+theorem isAuthoritativeV2_eq_V1' {s₁ s₂ : Store} {rows : Rows} (hrep1 : RepRRV1 s₁ rows)
+    (hrep2 : RepRRV2 s₂ rows) {L : Bytes} (hok : RowsOKAt rows L) (hL : L.length = 2)
+    (ql : List Bytes) (hq : NameOK64 ql) (hlen : (pack ql).length ≤ 256) :
+    isAuthoritativeV2 ⟨.rdbV2, s₂, L⟩ (pack ql) =
+      isAuthoritativeV1 ⟨.rdbV1, s₁, L⟩ ((pack ql).length + 1) (pack ql) false false := by
+  obtain ⟨N, A, z1, _, _, h2, h1⟩ := isAuthoritativeV2_eq_V1_cut hrep1 hrep2 hok hL ql hq hlen
+  rw [h2, h1]
 
+
+/-! ### `FindAnswer`: the two clients -/
+
+abbrev SF := Ans × Bool × Nat
+
+def preF (control rev : Bytes) (length : Nat) (st : SF) : Option SF :=
+  if length < control.length then none
+  else if findAnswerV2.chk rev st (rev.length + 1) length then some (st.1, st.2.1, length) else none
+
+def onRowsF (qnameOut : Bytes) (qtype : Nat) (rows : List Bytes) (st : SF) : SF :=
+  ((scanAnswer rows st.2.1 qnameOut qtype st.1).getD st.1, st.2.1, st.2.2)
+
+def postF (st : SF) : SF × Bool :=
+  if st.1.recordFound then (st, false) else ((st.1, true, st.2.2), true)
+
+theorem findAnswerV2_unfold (v : View) (q control qnameOut : Bytes) (qtype : Nat) :
+    findAnswerV2 v q control qnameOut qtype =
+      match reverseWire q with
+      | none => .panic
+      | some rev =>
+        match findGo v rev (preF control rev) (onRowsF qnameOut qtype) postF (rev.length + 2) rev.length
+            ({}, false, rev.length) with
+        | .ok (a, _, _) => .ok a
+        | .err => .err
+        | .panic => .panic := rfl
+
+theorem onRowsF_nil (qnameOut : Bytes) (qtype : Nat) (st : SF) : onRowsF qnameOut qtype [] st = st := rfl
+
+theorem chk_zero (rev : Bytes) (st : SF) (i : Nat) : findAnswerV2.chk rev st 0 i = true := by
+  rw [findAnswerV2.chk]
+
+theorem chk_succ (rev : Bytes) (st : SF) (fuel i : Nat) : findAnswerV2.chk rev st (fuel + 1) i =
+    if i < st.2.2 then
+      match rev[i - 1]? with
+      | none => true
+      | some ll => if wildsafe ((rev.drop i).take ll.toNat) then findAnswerV2.chk rev st fuel (i + ll.toNat + 1) else false
+    else true := by
+  rw [findAnswerV2.chk]; rfl
+
+
+theorem chk_spec : ∀ (u d rest : List Bytes) (st : SF) (fuel : Nat), NameOK (d ++ u ++ rest) →
+    st.2.2 = (flat (d ++ u)).length + 1 → u.length < fuel →
+    findAnswerV2.chk (pack (d ++ u ++ rest)) st fuel ((flat d).length + 1) = u.all wildsafe
+  | [], d, rest, st, fuel, _, hll, hf => by
+    obtain ⟨f, rfl⟩ : ∃ f, fuel = f + 1 := ⟨fuel - 1, by simp at hf; omega⟩
+    rw [chk_succ, if_neg (by rw [hll]; simp)]
+    rfl
+  | y :: u, d, rest, st, fuel, hok, hll, hf => by
+    obtain ⟨f, rfl⟩ : ∃ f, fuel = f + 1 := ⟨fuel - 1, by simp at hf; omega⟩
+    have hy : LabelOK y := hok y (by simp)
+    have hrev : pack (d ++ y :: u ++ rest) = flat d ++ UInt8.ofNat y.length :: (y ++ pack (u ++ rest)) := by
+      rw [List.append_assoc, pack_append, List.cons_append, pack_cons]; rfl
+    have hlt : (flat d).length + 1 < st.2.2 := by
+      rw [hll, flat_append, flat_cons, List.length_append, List.length_append, tok_length]; omega
+    rw [chk_succ, if_pos hlt]
+    have e1 : (pack (d ++ y :: u ++ rest))[(flat d).length + 1 - 1]? = some (UInt8.ofNat y.length) := by
+      rw [hrev]; simp
+    rw [e1]
+    simp only []
+    have e2 : ((pack (d ++ y :: u ++ rest)).drop ((flat d).length + 1)).take (UInt8.ofNat y.length).toNat = y := by
+      rw [hrev, hy.toNat]
+      have : (flat d ++ UInt8.ofNat y.length :: (y ++ pack (u ++ rest))) =
+          (flat d ++ [UInt8.ofNat y.length]) ++ (y ++ pack (u ++ rest)) := by simp
+      rw [this, List.drop_left' (by simp)]; simp
+    rw [e2]
+    have e3 : d ++ y :: u ++ rest = (d ++ [y]) ++ u ++ rest := by simp
+    have e4 : (flat d).length + 1 + (UInt8.ofNat y.length).toNat + 1 = (flat (d ++ [y])).length + 1 := by
+      rw [hy.toNat, flat_append, flat_cons, flat_nil, List.append_nil, List.length_append, tok_length]; omega
+    rw [e4]
+    by_cases hw : wildsafe y = true
+    · rw [if_pos hw, e3, chk_spec u (d ++ [y]) rest st f (by rw [← e3]; exact hok)
+        (by rw [hll]; congr 2; simp) (by simp at hf; omega)]
+      simp [hw]
+    · rw [if_neg hw]; simp [hw]
+
+
+theorem flat_length_lt_of_proper_prefix {a n : List Bytes} (h : a <+: n) (hne : a ≠ n) :
+    (flat a).length < (flat n).length := by
+  obtain ⟨x, t, rfl⟩ := proper_prefix_of h hne
+  rw [flat_append, flat_cons, List.length_append, List.length_append, tok_length]; omega
+
+section FA
+variable (control qnameOut : Bytes) (qtype : Nat)
+
+/-- the answer accumulator after the rows of the name `z` visible to a client at `L` -/
+def ansAt (rows : Rows) (L : Bytes) (z : List Bytes) (wc : Bool) (acc : Ans) : Ans :=
+  (scanAnswer (rows z [0, 0]) wc qnameOut qtype
+    (if L = [0, 0] then acc else (scanAnswer (rows z L) wc qnameOut qtype acc).getD acc)).getD
+    (if L = [0, 0] then acc else (scanAnswer (rows z L) wc qnameOut qtype acc).getD acc)
+
+/-- the label walk after the name `z` (query order) yielded no record -/
+def upV1 (v : View) (fuel : Nat) (z : List Bytes) (acc : Ans) : Ans :=
+  if pack z = control then acc
+  else match z with
+    | [] => acc
+    | x :: z' => if ¬ (wildsafe x = true) then acc else findAnswerV1 v control qnameOut qtype fuel (pack z') true acc
+
+theorem st3Of_F (rows : Rows) (L : Bytes) (c : List Bytes) (acc : Ans) (wc : Bool) (ll : Nat) :
+    st3Of rows (onRowsF qnameOut qtype) L c (acc, wc, ll) = (ansAt qnameOut qtype rows L c.reverse wc acc, wc, ll) := by
+  unfold st3Of ansAt onRowsF
+  by_cases hL : L = [0, 0]
+  · rw [if_pos hL, if_pos hL]
+  · rw [if_neg hL, if_neg hL]
+
+theorem ansAt_empty {rows : Rows} {L : Bytes} {z : List Bytes} (h1 : rows z L = []) (h0 : rows z [0, 0] = [])
+    (wc : Bool) (acc : Ans) : ansAt qnameOut qtype rows L z wc acc = acc := by
+  unfold ansAt; rw [h1, h0]
+  by_cases hL : L = [0, 0]
+  · rw [if_pos hL]; rfl
+  · rw [if_neg hL]; rfl
+
+variable {s₁ : Store} {rows : Rows}
+
+theorem findAnswerV1_step (hrep : RepRRV1 s₁ rows) (b : Backend) {L : Bytes} (hL : L.length = 2)
+    (z : List Bytes) (hz : NameOK z) (fuel : Nat) (wc : Bool) (acc : Ans) :
+    findAnswerV1 ⟨b, s₁, L⟩ control qnameOut qtype (fuel + 1) (pack z) wc acc =
+      if (ansAt qnameOut qtype rows L z wc acc).recordFound = true then ansAt qnameOut qtype rows L z wc acc
+      else upV1 control qnameOut qtype ⟨b, s₁, L⟩ fuel z (ansAt qnameOut qtype rows L z wc acc) := by
+  have g0 : s₁.get ([0, 0] ++ pack z) = rows z [0, 0] := hrep z [0, 0] hz rfl
+  have gL : s₁.get (L ++ pack z) = rows z L := hrep z L hz hL
+  have hacc1 : (scanAnswer (if L ≠ [0, 0] then s₁.get (L ++ pack z) else []) wc qnameOut qtype acc).getD acc =
+      (if L = [0, 0] then acc else (scanAnswer (rows z L) wc qnameOut qtype acc).getD acc) := by
+    by_cases hL0 : L = [0, 0]
+    · rw [if_neg (by simpa using hL0), if_pos hL0]; rfl
+    · rw [if_pos hL0, if_neg hL0, gL]
+  simp only [findAnswerV1]
+  rw [hacc1, g0]
+  show (if (ansAt qnameOut qtype rows L z wc acc).recordFound = true then _ else _) = _
+  by_cases hrf : (ansAt qnameOut qtype rows L z wc acc).recordFound = true
+  · rw [if_pos hrf, if_pos hrf]; rfl
+  · rw [if_neg hrf, if_neg hrf]
+    unfold upV1
+    by_cases hctl : pack z = control
+    · rw [if_pos hctl, if_pos hctl]; rfl
+    · rw [if_neg hctl, if_neg hctl]
+      cases z with
+      | nil => rfl
+      | cons x z' =>
+        have hx := hz.head
+        have e : pack (x :: z') = UInt8.ofNat x.length :: (x ++ pack z') := by rw [pack_cons]; rfl
+        rw [e]
+        simp only []
+        rw [if_neg (ofNat_len_ne_zero hx), drop_tok_pack x hx, take_tok_pack x hx]
+        rfl
+
+/-- the walk meets neither the control name nor a label that is not wild-safe between `x :: t ++ z'` and `z'` -/
+def goodUp (z' : List Bytes) : List Bytes → Prop
+  | [] => True
+  | x :: t => pack (x :: (t ++ z')) ≠ control ∧ wildsafe x = true ∧ goodUp z' t
+
+theorem goodUp_iff (z' : List Bytes) : ∀ (t : List Bytes), goodUp control z' t ↔
+    (∀ y ∈ t, wildsafe y = true) ∧ (∀ t1 t2, t = t1 ++ t2 → t2 ≠ [] → pack (t2 ++ z') ≠ control)
+  | [] => by simp [goodUp]
+  | x :: t => by
+    simp only [goodUp, goodUp_iff z' t]
+    constructor
+    · rintro ⟨h1, h2, h3, h4⟩
+      refine ⟨fun y hy => ?_, fun t1 t2 ht hne => ?_⟩
+      · rcases List.mem_cons.1 hy with rfl | hy
+        · exact h2
+        · exact h3 y hy
+      · cases t1 with
+        | nil => simp at ht; subst ht; exact h1
+        | cons a t1 =>
+          simp at ht
+          exact h4 t1 t2 ht.2 hne
+    · rintro ⟨h1, h2⟩
+      refine ⟨h2 [] (x :: t) rfl (by simp), h1 x (by simp), fun y hy => h1 y (by simp [hy]),
+        fun t1 t2 ht hne => h2 (x :: t1) t2 (by rw [ht]; rfl) hne⟩
+
+theorem upV1_good (hrep : RepRRV1 s₁ rows) (b : Backend) {L : Bytes} (hL : L.length = 2) (z' : List Bytes) :
+    ∀ (t : List Bytes) (x : Bytes) (fuel : Nat) (acc : Ans), NameOK (x :: (t ++ z')) → acc.recordFound = false →
+    (∀ t1 t2, t = t1 ++ t2 → t2 ≠ [] → NoRowsF rows (t2 ++ z')) → goodUp control z' (x :: t) →
+    upV1 control qnameOut qtype ⟨b, s₁, L⟩ (fuel + t.length) (x :: (t ++ z')) acc =
+      findAnswerV1 ⟨b, s₁, L⟩ control qnameOut qtype fuel (pack z') true acc
+  | [], x, fuel, acc, _, _, _, hg => by
+    unfold upV1
+    rw [if_neg hg.1]
+    simp only []
+    rw [if_neg (by simp [hg.2.1])]
+    rfl
+  | y :: t, x, fuel, acc, hok, hacc, hno, hg => by
+    unfold upV1
+    rw [if_neg hg.1]
+    simp only []
+    rw [if_neg (by simp [hg.2.1])]
+    have hn : NoRowsF rows (y :: (t ++ z')) := hno [] (y :: t) rfl (by simp)
+    show findAnswerV1 ⟨b, s₁, L⟩ control qnameOut qtype (fuel + t.length + 1) (pack (y :: (t ++ z'))) true acc = _
+    rw [findAnswerV1_step control qnameOut qtype hrep b hL (y :: (t ++ z')) hok.tail,
+      ansAt_empty qnameOut qtype (hn L hL) (hn [0, 0] rfl), if_neg (by simp [hacc])]
+    exact upV1_good hrep b hL z' t y fuel acc hok.tail hacc
+      (fun t1 t2 ht hne => hno (y :: t1) t2 (by rw [ht]; rfl) hne) hg.2.2
+
+theorem upV1_bad (hrep : RepRRV1 s₁ rows) (b : Backend) {L : Bytes} (hL : L.length = 2) (z' : List Bytes)
+    (t : List Bytes) : ∀ (x : Bytes) (fuel : Nat) (acc : Ans), NameOK (x :: (t ++ z')) → acc.recordFound = false →
+    (∀ t1 t2, t = t1 ++ t2 → t2 ≠ [] → NoRowsF rows (t2 ++ z')) → ¬ goodUp control z' (x :: t) →
+    upV1 control qnameOut qtype ⟨b, s₁, L⟩ fuel (x :: (t ++ z')) acc = acc := by
+  induction t with
+  | nil =>
+    intro x fuel acc hok hacc hno hg
+    unfold upV1
+    by_cases h1 : pack (x :: ([] ++ z')) = control
+    · rw [if_pos h1]
+    · rw [if_neg h1]
+      simp only []
+      by_cases h2 : wildsafe x = true
+      · exact absurd ⟨h1, h2, trivial⟩ hg
+      · rw [if_pos h2]
+  | cons y t ih =>
+    intro x fuel acc hok hacc hno hg
+    unfold upV1
+    by_cases h1 : pack (x :: (y :: t ++ z')) = control
+    · rw [if_pos h1]
+    · rw [if_neg h1]
+      simp only []
+      by_cases h2 : wildsafe x = true
+      · rw [if_neg (by simp [h2])]
+        have hg' : ¬ goodUp control z' (y :: t) := fun h => hg ⟨h1, h2, h⟩
+        cases fuel with
+        | zero => rfl
+        | succ f =>
+          have hn : NoRowsF rows (y :: (t ++ z')) := hno [] (y :: t) rfl (by simp)
+          show findAnswerV1 ⟨b, s₁, L⟩ control qnameOut qtype (f + 1) (pack (y :: (t ++ z'))) true acc = _
+          rw [findAnswerV1_step control qnameOut qtype hrep b hL (y :: (t ++ z')) hok.tail,
+            ansAt_empty qnameOut qtype (hn L hL) (hn [0, 0] rfl), if_neg (by simp [hacc])]
+          exact ih y f acc hok.tail hacc
+            (fun t1 t2 ht hne => hno (y :: t1) t2 (by rw [ht]; rfl) hne) hg'
+      · rw [if_pos h2]
+
+theorem upV1_all_empty (hrep : RepRRV1 s₁ rows) (b : Backend) {L : Bytes} (hL : L.length = 2) :
+    ∀ (z : List Bytes) (fuel : Nat) (acc : Ans), NameOK z → acc.recordFound = false →
+    (∀ t1 t2, z = t1 ++ t2 → t1 ≠ [] → NoRowsF rows t2) →
+    upV1 control qnameOut qtype ⟨b, s₁, L⟩ fuel z acc = acc
+  | [], fuel, acc, _, _, _ => by
+    unfold upV1
+    by_cases h1 : pack [] = control
+    · rw [if_pos h1]
+    · rw [if_neg h1]
+  | x :: z', fuel, acc, hok, hacc, hno => by
+    unfold upV1
+    by_cases h1 : pack (x :: z') = control
+    · rw [if_pos h1]
+    · rw [if_neg h1]
+      simp only []
+      by_cases h2 : wildsafe x = true
+      · rw [if_neg (by simp [h2])]
+        cases fuel with
+        | zero => rfl
+        | succ f =>
+          have hn := hno [x] z' rfl (by simp)
+          rw [findAnswerV1_step control qnameOut qtype hrep b hL z' hok.tail,
+            ansAt_empty qnameOut qtype (hn L hL) (hn [0, 0] rfl), if_neg (by simp [hacc])]
+          exact upV1_all_empty hrep b hL z' f acc hok.tail hacc
+            fun t1 t2 ht hne => hno (x :: t1) t2 (by rw [ht]; rfl) (by simp)
+      · rw [if_pos h2]
+
+end FA
+
+
+section FAMain
+variable {s₁ s₂ : Store} {rows : Rows} (qnameOut : Bytes) (qtype : Nat)
+
+/-- the continuation statement: the closest-key search entering `c'` after `cprev` yielded nothing
+equals the label walk going up from `cprev` -/
+def MStmt (s₁ s₂ : Store) (rows : Rows) (qnameOut : Bytes) (qtype : Nat) (b1 b2 : Backend) (L : Bytes)
+    (n cc : List Bytes) (f : Nat) : Prop :=
+  ∀ (c' cprev : List Bytes) (acc : Ans) (fuel1 : Nat), cprev <+: n → c' <+: cprev → c' ≠ cprev → cc <+: cprev →
+    (∀ a, a <+: cprev → a ≠ cprev → ¬ a <+: c' → NoRows rows a) → acc.recordFound = false →
+    c'.length < f → cprev.length ≤ fuel1 →
+    ∃ (r : Ans) (wc' : Bool) (ll' : Nat),
+      findGo ⟨b2, s₂, L⟩ (pack n) (preF (pack cc.reverse) (pack n)) (onRowsF qnameOut qtype) postF f
+        (pack c').length (acc, true, (pack cprev).length) = .ok (r, wc', ll') ∧
+      upV1 (pack cc.reverse) qnameOut qtype ⟨b1, s₁, L⟩ fuel1 cprev.reverse acc = r
+
+theorem fa_visit (hrep1 : RepRRV1 s₁ rows) (hrep2 : RepRRV2 s₂ rows) (b1 b2 : Backend) {L : Bytes}
+    (hL : L.length = 2) {n cc : List Bytes} (hn : NameOK64 n) (hlen : (pack n).length ≤ 256) {f : Nat}
+    (hM : MStmt s₁ s₂ rows qnameOut qtype b1 b2 L n cc f)
+    (c' : List Bytes) (st : SF) (acc : Ans) (wc : Bool) (g : Nat) (hc' : c' <+: n) (hcc : cc <+: c')
+    (hpre : preF (pack cc.reverse) (pack n) (pack c').length st = some (acc, wc, (pack c').length))
+    (hg : c'.length ≤ g) (hf : c'.length ≤ f) :
+    ∃ (r : Ans) (wc' : Bool) (ll' : Nat),
+      findGo ⟨b2, s₂, L⟩ (pack n) (preF (pack cc.reverse) (pack n)) (onRowsF qnameOut qtype) postF (f + 1)
+        (pack c').length st = .ok (r, wc', ll') ∧
+      findAnswerV1 ⟨b1, s₁, L⟩ (pack cc.reverse) qnameOut qtype (g + 1) (pack c'.reverse) wc acc = r := by
+  have hco : NameOK c' := hn.ok.prefix hc'
+  have hstep := findGo_step (rows := rows) ⟨b2, s₂, L⟩ hrep2 hL (preF (pack cc.reverse) (pack n))
+    (onRowsF qnameOut qtype) postF (onRowsF_nil qnameOut qtype) f st (acc, wc, (pack c').length) hn hlen hc' hpre
+  rw [st3Of_F] at hstep
+  simp only [] at hstep
+  rw [findAnswerV1_step (pack cc.reverse) qnameOut qtype hrep1 b1 hL c'.reverse hco.reverse]
+  generalize ansAt qnameOut qtype rows L c'.reverse wc acc = a at hstep ⊢
+  by_cases hrf : a.recordFound = true
+  · have hp : postF (a, wc, (pack c').length) = ((a, wc, (pack c').length), false) := by
+      unfold postF; rw [if_pos hrf]
+    rw [hp] at hstep
+    rw [if_pos hrf]
+    rcases hstep with ⟨_, hgo⟩ | ⟨h, _⟩ | ⟨h, _⟩
+    · exact ⟨a, wc, _, hgo, rfl⟩
+    · cases h
+    · cases h
+  · have hrf' : a.recordFound = false := by simpa using hrf
+    have hp : postF (a, wc, (pack c').length) = ((a, true, (pack c').length), true) := by
+      unfold postF; rw [if_neg hrf]
+    rw [hp] at hstep
+    rw [if_neg hrf]
+    rcases hstep with ⟨h, _⟩ | ⟨_, hgo, hno⟩ | ⟨_, c'', h1, h2, hsk, hgo⟩
+    · cases h
+    · refine ⟨a, true, _, hgo, ?_⟩
+      apply upV1_all_empty (pack cc.reverse) qnameOut qtype hrep1 b1 hL c'.reverse g a hco.reverse hrf'
+      intro t1 t2 ht hne loc hl
+      have hc'e : c' = t2.reverse ++ t1.reverse := by
+        have := congrArg List.reverse ht; simpa using this
+      have ha : t2.reverse <+: c' := by rw [hc'e]; exact List.prefix_append _ _
+      have hne' : t2.reverse ≠ c' := by
+        intro e; have := congrArg List.length e
+        rw [hc'e] at this; simp at this
+        exact hne this
+      have := hno t2.reverse ha hne' loc hl
+      rwa [List.reverse_reverse] at this
+    · have hlt : c''.length < c'.length := by
+        rcases Nat.lt_or_ge c''.length c'.length with h | h
+        · exact h
+        · exact absurd (h1.eq_of_length (Nat.le_antisymm h1.length_le h)) h2
+      obtain ⟨r, wc', ll', hgo', hup⟩ := hM c'' c' a g hc' h1 h2 hcc hsk hrf' (by omega) hg
+      exact ⟨r, wc', ll', by rw [hgo]; exact hgo', hup⟩
+
+end FAMain
+
+
+section FAInd
+variable {s₁ s₂ : Store} {rows : Rows} (qnameOut : Bytes) (qtype : Nat)
+
+theorem fa_cont (hrep1 : RepRRV1 s₁ rows) (hrep2 : RepRRV2 s₂ rows) (b1 b2 : Backend) {L : Bytes}
+    (hL : L.length = 2) {n cc : List Bytes} (hn : NameOK64 n) (hlen : (pack n).length ≤ 256) :
+    ∀ f, MStmt s₁ s₂ rows qnameOut qtype b1 b2 L n cc f := by
+  intro f
+  induction f with
+  | zero => intro c' _ _ _ _ _ _ _ _ _ h _; simp at h
+  | succ f ih =>
+    intro c' cprev acc fuel1 hcp hc'p hne hcc hsk hacc hf hf1
+    have hc'n : c' <+: n := hc'p.trans hcp
+    have hcpo : NameOK cprev := hn.ok.prefix hcp
+    obtain ⟨u, hu⟩ := hc'p
+    obtain ⟨rest, hrest⟩ := hcp
+    have hune : u ≠ [] := fun e => hne (by rw [← hu, e]; simp)
+    obtain ⟨x, t, hxt⟩ : ∃ x t, u.reverse = x :: t := by
+      cases hur : u.reverse with
+      | nil => exact absurd (by simpa using hur) hune
+      | cons x t => exact ⟨x, t, rfl⟩
+    have hu' : u = t.reverse ++ [x] := List.reverse_eq_cons_iff.1 hxt
+    have hz : cprev.reverse = x :: (t ++ c'.reverse) := by
+      rw [← hu, List.reverse_append, hxt]; rfl
+    have hzz : NameOK (x :: (t ++ c'.reverse)) := hz ▸ hcpo.reverse
+    have hclen : cprev.length = c'.length + t.length + 1 := by
+      rw [← hu, hu']; simp; omega
+    -- names strictly between own no rows (query order)
+    have hno : ∀ t1 t2, t = t1 ++ t2 → t2 ≠ [] → NoRowsF rows (t2 ++ c'.reverse) := by
+      intro t1 t2 ht hne2 loc hl
+      have ha : (c' ++ t2.reverse) <+: cprev := by
+        rw [← hu, hu', ht, List.reverse_append, List.append_assoc, ← List.append_assoc c']
+        exact List.prefix_append _ _
+      have hne' : c' ++ t2.reverse ≠ cprev := by
+        intro e; have := congrArg List.length e
+        rw [hclen, ht] at this; simp at this; omega
+      have hnp : ¬ (c' ++ t2.reverse) <+: c' := by
+        intro h; have := h.length_le; simp at this
+        exact hne2 (List.eq_nil_of_length_eq_zero (by omega))
+      have := hsk _ ha hne' hnp loc hl
+      simpa using this
+    rw [hz]
+    by_cases hcc' : cc <+: c'
+    · -- the zone cut is at or above `c'`
+      have hlen1 : ¬ (pack c').length < (pack cc.reverse).length := by
+        have := flat_length_le_of_prefix hcc'
+        rw [pack_reverse_length, pack_length, pack_length]; omega
+      have hchk : findAnswerV2.chk (pack n) (acc, true, (pack cprev).length) ((pack n).length + 1) (pack c').length =
+          u.all wildsafe := by
+        have hnn : n = c' ++ u ++ rest := by rw [hu, hrest]
+        have := chk_spec u c' rest (acc, true, (pack cprev).length) ((pack n).length + 1)
+          (by rw [← hnn]; exact hn.ok) (by rw [hu, pack_length]) (by
+            have h1 := length_le_flat_length n
+            have h2 : u.length ≤ n.length := by rw [hnn]; simp; omega
+            rw [pack_length]; omega)
+        rw [← hnn, ← pack_length] at this
+        exact this
+      have hall : u.all wildsafe = true ↔ ∀ y ∈ x :: t, wildsafe y = true := by
+        rw [← hxt]; simp
+      by_cases hw : u.all wildsafe = true
+      · -- enter `c'`
+        have hpre : preF (pack cc.reverse) (pack n) (pack c').length (acc, true, (pack cprev).length) =
+            some (acc, true, (pack c').length) := by
+          unfold preF; rw [if_neg hlen1, hchk, if_pos hw]
+        have hgood : goodUp (pack cc.reverse) c'.reverse (x :: t) := by
+          rw [goodUp_iff]
+          refine ⟨hall.1 hw, fun t1 t2 ht hne2 heq => ?_⟩
+          have hok2 : NameOK (t2 ++ c'.reverse) := by
+            intro l hl; apply hzz l
+            have : x :: (t ++ c'.reverse) = t1 ++ (t2 ++ c'.reverse) := by
+              rw [← List.append_assoc, ← ht]; rfl
+            rw [this]; exact List.mem_append_right _ hl
+          have := pack_inj hok2 (hn.ok.prefix (hcc'.trans hc'n)).reverse heq
+          have h2 := congrArg List.length this
+          have h3 := hcc'.length_le
+          simp at h2
+          exact hne2 (List.eq_nil_of_length_eq_zero (by omega))
+        obtain ⟨g', rfl⟩ : ∃ g', fuel1 = g' + t.length := ⟨fuel1 - t.length, by omega⟩
+        obtain ⟨g, rfl⟩ : ∃ g, g' = g + 1 := ⟨g' - 1, by omega⟩
+        rw [upV1_good (pack cc.reverse) qnameOut qtype hrep1 b1 hL c'.reverse t x (g + 1) acc hzz hacc hno hgood]
+        exact fa_visit qnameOut qtype hrep1 hrep2 b1 b2 hL hn hlen ih c' _ acc true g hc'n hcc' hpre
+          (by omega) (by omega)
+      · have hpre : preF (pack cc.reverse) (pack n) (pack c').length (acc, true, (pack cprev).length) = none := by
+          unfold preF; rw [if_neg hlen1, hchk, if_neg hw]
+        refine ⟨acc, true, _, findGo_pre_none _ _ _ _ _ f _ _ hpre, ?_⟩
+        apply upV1_bad (pack cc.reverse) qnameOut qtype hrep1 b1 hL c'.reverse t x fuel1 acc hzz hacc hno
+        intro hg
+        exact hw (hall.2 ((goodUp_iff _ _ _).1 hg).1)
+    · -- the zone cut lies strictly between `c'` and `cprev` (or is `cprev`): both stop
+      have hc'cc : c' <+: cc := by
+        rcases prefix_total hcc ⟨u, hu⟩ with h | h
+        · exact absurd h hcc'
+        · exact h
+      have hne3 : c' ≠ cc := fun e => hcc' (e ▸ List.prefix_refl _)
+      have hlen1 : (pack c').length < (pack cc.reverse).length := by
+        have := flat_length_lt_of_proper_prefix hc'cc hne3
+        rw [pack_reverse_length, pack_length, pack_length]; omega
+      have hpre : preF (pack cc.reverse) (pack n) (pack c').length (acc, true, (pack cprev).length) = none := by
+        unfold preF; rw [if_pos hlen1]
+      refine ⟨acc, true, _, findGo_pre_none _ _ _ _ _ f _ _ hpre, ?_⟩
+      apply upV1_bad (pack cc.reverse) qnameOut qtype hrep1 b1 hL c'.reverse t x fuel1 acc hzz hacc hno
+      intro hg
+      obtain ⟨w1, hw1⟩ := hc'cc
+      obtain ⟨w2, hw2⟩ := hcc
+      have hw1ne : w1 ≠ [] := fun e => hne3 (by rw [← hw1, e]; simp)
+      have huw : u = w1 ++ w2 := by
+        have : c' ++ u = c' ++ (w1 ++ w2) := by rw [hu, ← List.append_assoc, hw1, hw2]
+        exact List.append_cancel_left this
+      have hsplit : x :: t = w2.reverse ++ w1.reverse := by rw [← hxt, huw, List.reverse_append]
+      have := ((goodUp_iff _ _ _).1 hg).2 w2.reverse w1.reverse hsplit (by simpa using hw1ne)
+      apply this
+      rw [← hw1, List.reverse_append]
+
+/-- `sortedDataReader.FindAnswer` equals `DataReader.FindAnswer` -/
+theorem findAnswerV2_eq_V1' (hrep1 : RepRRV1 s₁ rows) (hrep2 : RepRRV2 s₂ rows) {L : Bytes}
+    (hL : L.length = 2) (ql zc : List Bytes) (hq : NameOK64 ql) (hlen : (pack ql).length ≤ 256)
+    (hzc : zc <:+ ql) :
+    findAnswerV2 ⟨.rdbV2, s₂, L⟩ (pack ql) (pack zc) qnameOut qtype =
+      .ok (findAnswerV1 ⟨.rdbV1, s₁, L⟩ (pack zc) qnameOut qtype ((pack ql).length + 1) (pack ql) false {}) := by
+  have hn : NameOK64 ql.reverse := fun l hl => hq l (List.mem_reverse.1 hl)
+  have hlen' : (pack ql.reverse).length ≤ 256 := by rw [pack_reverse_length]; exact hlen
+  have hcc : zc.reverse <+: ql.reverse := List.reverse_prefix.2 hzc
+  rw [findAnswerV2_unfold, reverseWire_pack ql hq.ok]
+  simp only []
+  have hpre : preF (pack zc.reverse.reverse) (pack ql.reverse) (pack ql.reverse).length
+      ({}, false, (pack ql.reverse).length) = some ({}, false, (pack ql.reverse).length) := by
+    unfold preF
+    have h1 := flat_length_le_of_prefix hcc
+    have h2 : (pack zc.reverse.reverse).length = (pack zc.reverse).length := pack_reverse_length _
+    have hlt : ¬ (pack ql.reverse).length < (pack zc.reverse.reverse).length := by
+      rw [h2, pack_length, pack_length]; omega
+    have hchk : findAnswerV2.chk (pack ql.reverse) (({} : Ans), false, (pack ql.reverse).length)
+        ((pack ql.reverse).length + 1) (pack ql.reverse).length = true := by
+      rw [chk_succ, if_neg (Nat.lt_irrefl _)]
+    rw [if_neg hlt, hchk, if_pos rfl]
+  have hll : ql.reverse.length ≤ (pack ql).length := by
+    have := length_le_flat_length ql; rw [pack_length]; simp; omega
+  obtain ⟨r, wc', ll', hgo, hv1⟩ := fa_visit qnameOut qtype hrep1 hrep2 .rdbV1 .rdbV2 hL hn hlen'
+    (fa_cont qnameOut qtype hrep1 hrep2 .rdbV1 .rdbV2 hL hn hlen' ((pack ql.reverse).length + 1))
+    ql.reverse _ {} false (pack ql).length (List.prefix_refl _) hcc hpre hll
+    (by rw [pack_reverse_length]; omega)
+  simp only [List.reverse_reverse] at hgo hv1
+  rw [hgo, hv1]
+
+end FAInd
+
+
+
+/-! ### rows of a name: the two layouts -/
+
+theorem rowsOf_v2_eq_v1' {s₁ s₂ : Store} {rows : Rows} (hrep1 : RepRRV1 s₁ rows) (hrep2 : RepRRV2 s₂ rows)
+    {L : Bytes} (hL : L.length = 2) (z : List Bytes) (hz : NameOK z) :
+    rowsOf ⟨.rdbV2, s₂, L⟩ (pack z) = rowsOf ⟨.rdbV1, s₁, L⟩ (pack z) := by
+  have h2 : ∀ loc, rrKey ⟨.rdbV2, s₂, L⟩ (pack z) loc = some (Key z.reverse loc) := by
+    intro loc
+    show (if (View.v2 ⟨.rdbV2, s₂, L⟩) = true then _ else _) = _
+    have hv : View.v2 ⟨.rdbV2, s₂, L⟩ = true := by simp [View.v2]
+    rw [if_pos hv, reverseWire_pack z hz]; rfl
+  have h1 : ∀ loc, rrKey ⟨.rdbV1, s₁, L⟩ (pack z) loc = some (loc ++ pack z) := by
+    intro loc
+    show (if (View.v2 ⟨.rdbV1, s₁, L⟩) = true then _ else _) = _
+    have hv : ¬ View.v2 ⟨.rdbV1, s₁, L⟩ = true := by simp [View.v2]
+    rw [if_neg hv]
+  unfold rowsOf
+  simp only [h1, h2, Option.map_some, Option.getD_some]
+  rw [hrep2.get z [0, 0] hz rfl, hrep1 z [0, 0] hz rfl, hrep2.get z L hz hL, hrep1 z L hz hL]
 
 end DnsVerif.RevOrder
